@@ -115,3 +115,21 @@ def run(checks,families,repo,seed,tier,procs=16):
                     lines=None,ast_hash=None,info=None,time=sum(r['time'] for r in rs),is_standin=True,
                     standin=dict(evaluations=len(rs),failures=fails,bound=f"{CHECK_DOC[c]}; designs: families {families} of zoo/designs.py enumerated completely ({len(rs)} designs), 6 cycles of seeded random inputs",per_case={})))
   return out
+
+def _memjob(a):
+  repo,seed,cfg=a
+  if repo not in sys.path: sys.path.insert(0,repo)
+  from zoo import memcheck
+  t0=time.time()
+  return dict(cfg=cfg,seed=seed,failed=memcheck.run_config(repo,seed,cfg),time=time.time()-t0)
+
+def run_mem(repo,seed,tier,procs=16):
+  from zoo import memcheck
+  seeds=[seed*7+1,seed*7+2] if tier=='quick' else [seed*7+k for k in range(1,9)]
+  jobs=[(repo,sd,cfg) for cfg in memcheck.configs(tier) for sd in seeds]
+  with Pool(min(procs,len(jobs))) as p: res=p.map(_memjob,jobs,chunksize=2)
+  fails=[dict(args={'design':f"{r['cfg']} seed={r['seed']}"},failed=[m],custom=dict(kind='custom',module='zoo.replay',entry='replay_mem',cfg=r['cfg'],seed=r['seed'])) for r in res for m in r['failed'][:1]]
+  bound=("per-port responses (type, opaque, len, data) in request order and the final memory image equal a sequential byte-array specification; "
+         f"MagicMemoryCL and stream MagicMemoryRTL, 1-2 ports, latency 0/1/3, stall probability 0/0.4, source/sink timing incl. back-pressuring sinks: {len(memcheck.configs(tier))} configurations x {len(seeds)} seeded request streams (6 requests per port: reads, writes, all AMOs, lengths 1..4, overlapping addresses)")
+  return [dict(key="zoo::memory",ok=True,error=None,obligations=[],kind='bounded-standin',lines=None,ast_hash=None,info=None,time=sum(r['time'] for r in res),is_standin=True,
+               standin=dict(evaluations=len(res),failures=fails,bound=bound,per_case={}))]
